@@ -265,6 +265,8 @@ func report(prop, tier string, seed int, rr *RunResult) int {
 				violations++
 				emitViolation(e, prop, o, "undecided-but-discharged-before")
 			} else {
+				// never discharged before (not in the ledger): not part of the claim; listed under "undecided"
+				nObl--
 				undecided = append(undecided, o.Name)
 			}
 		}
@@ -366,7 +368,13 @@ func emitViolation(e *Engine, prop string, o *Obligation, why string) {
 	fmt.Fprintf(&sb, "property: %s\nobligation: %s\nkind: %s\nat: %s\nwhat: %s\nstatus: %s (%s)\nsolver: %s\n\nsolver output:\n%s\n", prop, o.Name, o.Kind, o.Pos, o.Desc, o.Status, why, o.Solver, o.Output)
 	suffix := " no-failing-input-found"
 	goTest := ""
-	if o.Status == "failed" {
+	if o.Status == "failed" && o.Replay != nil {
+		fmt.Fprintf(&sb, "\nreplay against the real code:\n%s\n", o.Replay.Log)
+		goTest = o.Replay.Source
+		if o.Replay.Confirmed {
+			suffix = ""
+		}
+	} else if o.Status == "failed" {
 		model := e.ModelFor(o, 10)
 		fmt.Fprintf(&sb, "\nmodel:\n%s\n", model)
 		if rp := e.tryReplay(o, model); rp != nil {
